@@ -138,10 +138,12 @@ def cmdWith (stats : Bool) (args : List String) : String :=
   | [mode, baseH, exprH, linkS, minS, maxS, stackS, rootH, recS] =>
     let follow := linkS == "t"
     -- the harness rejects the depth bounds before anything else
+    let glob? : Option (Option Tok) := if mode == "g" then (build (unhex exprH)).map some else some none
+    -- `bounded_at_depth_variance` needs the glob: its build error comes first on that route
+    if minS.startsWith "v" && glob?.isNone then "globerr" else
     match behaviourOf minS maxS with
     | none => "depthnone"
     | some behaviour =>
-    let glob? : Option (Option Tok) := if mode == "g" then (build (unhex exprH)).map some else some none
     match glob? with
     | none => "globerr"
     | some glob =>
